@@ -168,6 +168,9 @@ func (StreamingCRLFileReader) ReadCRL(crlProcessor CRLProcessor, crlFilePath str
 	if err != nil {
 		return nil, err
 	}
+	if signatureBitString.BitLength%8 != 0 {
+		return nil, errors.New("CRL signature value is not a whole number of octets")
+	}
 
 	return &CRLReadResult{
 		HashAndVerifyStrategy: strategies,
